@@ -23,7 +23,7 @@ Next ==
   \/ \E s \in Signals, core \in {0, 1} : ChildSignalled(1, s, core)
 
 Spec == Init /\ [][Next]_vars
-Export == (Len(hist') > Len(hist) /\ hist'[Len(hist')].e = "ret") => PrintT(<<"BEH", ToJson(hist')>>)
+Export == ExportRet
 
 Stable == life[1] = "exited" => (stv[1] = ch[1].code /\ ch[1].alive = "reaped")
 =============================================================================
